@@ -44,6 +44,115 @@ fn replay_files_for(prop: &str) -> Vec<PathBuf> {
     out
 }
 
+/// libFuzzer campaigns (stable toolchain + sancov, DESIGN.md 2.5) over the same check functions:
+/// per suite, N processes with fixed -runs and -seed, corpus seeded with the replay-tier tapes and a
+/// few proptest-generated tapes.  A failing input is written by the target as a replay file.
+fn fuzz_stage(id: &str, prop: &props::Property, seed: u64, scale: f64, violations: &mut Vec<(String, PathBuf)>) -> serde_json::Value {
+    let bin = verif_root_static().join("fuzz/target/x86_64-unknown-linux-gnu/release/hvfuzz");
+    if !bin.exists() {
+        eprintln!("hv: NOTE: fuzz binary not built ({}); coverage-guided stage skipped", bin.display());
+        return json!({"ran": false, "reason": "fuzz binary not built"});
+    }
+    let procs: usize = std::env::var("HV_FUZZ_PROCS").ok().and_then(|s| s.parse().ok()).unwrap_or(8);
+    let mut per_suite = serde_json::Map::new();
+    let mut total_execs = 0u64;
+    for suite in &prop.suites {
+        // runs per process: cheap function-level suites get many, world suites fewer
+        let base: u64 = if suite.op_len == 0 && suite.head_len <= 64 { 600_000 } else if suite.op_len == 0 { 60_000 } else { 25_000 };
+        let runs = ((base as f64 * scale) as u64).max(100);
+        let max_len = (suite.head_len + suite.op_len * suite.max_ops) * 8;
+        let work = verif_root_static().join(format!("harness/target/fuzz-work/{}-{}", id, suite.name));
+        let _ = std::fs::remove_dir_all(&work);
+        let mut children = vec![];
+        for k in 0..procs {
+            let corpus = work.join(format!("corpus{}", k));
+            std::fs::create_dir_all(&corpus).unwrap();
+            // seed corpus: tapes of the replay tier + deterministic pseudo-tapes of full length
+            let mut n = 0;
+            for path in replay_files_for(id) {
+                if let Ok(rf) = load_replay(&path) {
+                    if rf.suite == suite.name {
+                        if let Some(t) = rf.tape {
+                            std::fs::write(corpus.join(format!("seed-replay-{}", n)), t.to_bytes()).unwrap();
+                            n += 1;
+                        }
+                    }
+                }
+            }
+            for j in 0..4u64 {
+                let mut bytes = vec![];
+                let mut x = fnv64(format!("{}:{}:{}:{}:{}", seed, id, suite.name, k, j).as_bytes());
+                for _ in 0..(max_len / 8) {
+                    x = x.wrapping_mul(6364136223846793005).wrapping_add(1442695040888963407);
+                    bytes.extend_from_slice(&(x ^ (x >> 29)).to_le_bytes());
+                }
+                std::fs::write(corpus.join(format!("seed-full-{}", j)), bytes).unwrap();
+            }
+            let log = std::fs::File::create(work.join(format!("log{}.txt", k))).unwrap();
+            let child = std::process::Command::new(&bin)
+                .env("HV_FUZZ_PROP", id)
+                .env("HV_FUZZ_SUITE", suite.name)
+                .arg(&corpus)
+                .arg(format!("-runs={}", runs))
+                .arg(format!("-seed={}", (seed.wrapping_mul(1000003).wrapping_add(k as u64) % 4_000_000_000).max(1)))
+                .arg("-len_control=0")
+                .arg(format!("-max_len={}", max_len))
+                .arg("-print_final_stats=1")
+                .arg("-verbosity=0")
+                .arg(format!("-artifact_prefix={}/artifact{}-", work.display(), k))
+                .stdout(std::process::Stdio::null())
+                .stderr(log)
+                .spawn();
+            match child {
+                Ok(c) => children.push((k, c)),
+                Err(e) => die2(&format!("cannot start fuzz process: {}", e)),
+            }
+        }
+        let mut execs = 0u64;
+        let mut new_units = 0u64;
+        let mut failed = false;
+        for (k, mut c) in children {
+            let st = c.wait().expect("fuzz process wait");
+            let log = std::fs::read_to_string(work.join(format!("log{}.txt", k))).unwrap_or_default();
+            for line in log.lines() {
+                if let Some(v) = line.strip_prefix("stat::number_of_executed_units:") {
+                    execs += v.trim().parse::<u64>().unwrap_or(0);
+                }
+                if let Some(v) = line.strip_prefix("stat::new_units_added:") {
+                    new_units += v.trim().parse::<u64>().unwrap_or(0);
+                }
+            }
+            if !st.success() {
+                if let Some(l) = log.lines().find(|l| l.starts_with("HVFUZZ-FAILURE")) {
+                    let path = l.split("replay=").nth(1).and_then(|r| r.split(" ::").next()).unwrap_or("").to_string();
+                    let msg = l.split(":: ").nth(1).unwrap_or("").to_string();
+                    if !failed {
+                        println!("failure (libFuzzer, suite {}): {}", suite.name, msg);
+                        violations.push((msg, PathBuf::from(path)));
+                    }
+                    failed = true;
+                } else if log.contains("HVFUZZ-INTERNAL") {
+                    die2(&format!("fuzz target reported a harness panic: {}", log.lines().find(|l| l.contains("HVFUZZ-INTERNAL")).unwrap_or("")));
+                } else {
+                    die2(&format!("fuzz process {} for suite {} ended abnormally (status {:?}); see {}", k, suite.name, st.code(), work.display()));
+                }
+            }
+        }
+        total_execs += execs;
+        per_suite.insert(suite.name.to_string(), json!({"processes": procs, "runs_per_process": runs, "executed_units": execs, "new_corpus_units": new_units, "max_len_bytes": max_len}));
+        let _ = std::fs::remove_dir_all(&work);
+        if failed {
+            break;
+        }
+    }
+    json!({"ran": true, "engine": "libFuzzer (libfuzzer-sys 0.4 on the stable toolchain, SanitizerCoverage inline-8bit-counters + trace-compares)", "executed_units": total_execs, "suites": serde_json::Value::Object(per_suite)})
+}
+
+fn verif_root_static() -> PathBuf {
+    // binaries and scratch always live under the real /verif tree, even when HV_ROOT redirects outputs
+    std::env::var("HV_HOME").map(Into::into).unwrap_or_else(|_| PathBuf::from("/verif"))
+}
+
 fn main() {
     let args: Vec<String> = std::env::args().skip(1).collect();
     if args.is_empty() {
@@ -160,7 +269,7 @@ fn main() {
 
     // ---- generated tier -------------------------------------------------------------------------
     let mut outcomes: Vec<(usize, SuiteOutcome, u64)> = vec![];
-    if violations.is_empty() {
+    if violations.is_empty() && std::env::var("HV_ONLY_FUZZ").is_err() {
         for (i, suite) in prop.suites.iter().enumerate() {
             if let Some(o) = &only_suite {
                 if o != suite.name {
@@ -199,6 +308,12 @@ fn main() {
         }
     }
 
+    // ---- coverage-guided stage (thorough tier only) --------------------------------------------------
+    let mut fuzz_report = json!({"ran": false});
+    if tier == "thorough" && violations.is_empty() && std::env::var("HV_NO_FUZZ").is_err() {
+        fuzz_report = fuzz_stage(&id, &prop, seed, scale, &mut violations);
+    }
+
     for l in &known_lines {
         println!("{}", l);
     }
@@ -228,7 +343,7 @@ fn main() {
         violations: violations.len() as u64,
         known_lines: known_lines.clone(),
         wall_s: timer.secs(),
-        extra: json!({"workers": workers, "vacuity_warnings": warn, "listed_known_findings": known::listed_ids(&id)}),
+        extra: json!({"workers": workers, "vacuity_warnings": warn, "listed_known_findings": known::listed_ids(&id), "coverage_guided_stage": fuzz_report}),
         exhaustive: false,
     };
     let evp = write_evidence(&ev);
